@@ -13,7 +13,7 @@ import (
 
 func init() {
 	register("C16", runC16, propMeta{
-		Explanation: "Decides, for every sequence of management operations, the structural conditions behind 'queries and executions agree with the denoted rule set and no sequence panics': (Q1) the master builder gp.ruleBuilder is set to nil by ClearPoolRules; in every management operation and query each use of it is reachable only through the not-nil edge of a test of it or after a store of a freshly created builder (path-sensitive, so the `clear || nil` idiom and the re-creation on a cleared pool are both understood); (Q2) every function that replaces or mutates the master also installs the master's container on all instances (C07-U3) under updateLock and, on success, stores clear=false; ClearPoolRules stores clear=true, ruleBuilder=nil and a fresh empty container on every instance; (Q3) the four rule queries read the master only under updateLock and only when the cleared flag is known false; (Q4) all 24 execute methods return (nil, empty map) on a cleared pool before acquiring an engine; (Q5) SetExecModel and NewGenginePool accept exactly the four model constants, each ...WithSpecifiedEM method has for each constant a branch on gp.execModel calling the engine method of that model (exhaustive 4x3 table), every other pool execute method calls the engine method of the same name with its n, m, flag and name arguments in the same positions; (Q6) initial and additional instances are treated alike: the instance loops cover [0,max) and wrapper tags are a bijection onto it. (Q9) the pool's incremental merge keeps name map, sorted list and index in step (the merge model of C08 on updateIncremental). Not decided: equality of query answers with the denoted set over histories (needs the algebra of C08). prepare* bind gw.rulebuilder = gp.rbSlice[gw.tag] on every request (Q10): executions follow what the management operations publish. (Q11) every engine method starts from a fresh result map before anything else, also before its 'no rule' error return. (Q12) the pool's compile pipeline walks the tree with the listener and tests the lexer's, the parser's and the listener's error lists after they can have been filled and before a container is handed on: a text that does not compile changes nothing. (Q13) the listener hands every node it takes off its stack on to its parent or the container: every rule written in a text is installed.",
+		Explanation: "Decides, for every sequence of management operations, the structural conditions behind 'queries and executions agree with the denoted rule set and no sequence panics': (Q1) the master builder gp.ruleBuilder is set to nil by ClearPoolRules; in every management operation and query each use of it is reachable only through the not-nil edge of a test of it or after a store of a freshly created builder (path-sensitive, so the `clear || nil` idiom and the re-creation on a cleared pool are both understood); (Q2) every function that replaces or mutates the master also installs the master's container on all instances (C07-U3) under updateLock and, on success, stores clear=false; ClearPoolRules stores clear=true, ruleBuilder=nil and a fresh empty container on every instance; (Q3) the four rule queries read the master only under updateLock and only when the cleared flag is known false; (Q4) all 24 execute methods return (nil, empty map) on a cleared pool before acquiring an engine; (Q5) SetExecModel and NewGenginePool accept exactly the four model constants, each ...WithSpecifiedEM method has for each constant a branch on gp.execModel calling the engine method of that model (exhaustive 4x3 table), every other pool execute method calls the engine method of the same name with its n, m, flag and name arguments in the same positions; (Q6) initial and additional instances are treated alike: the instance loops cover [0,max) and wrapper tags are a bijection onto it. (Q9) the pool's incremental merge keeps name map, sorted list and index in step (the merge model of C08 on updateIncremental). Not decided: equality of query answers with the denoted set over histories (needs the algebra of C08). prepare* bind gw.rulebuilder = gp.rbSlice[gw.tag] on every request (Q10): executions follow what the management operations publish. (Q11) every engine method starts from a fresh result map before anything else, also before its 'no rule' error return. (Q12) the pool's compile pipeline walks the tree with the listener and tests the lexer's, the parser's and the listener's error lists after they can have been filled and before a container is handed on: a text that does not compile changes nothing. (Q13) the listener hands every node it takes off its stack on to its parent or the container: every rule written in a text is installed. (Q14) the engine object keeps no compiled rules from one call to the next: what an instance runs is looked up in the container its builder holds now.",
 		Assumptions: []string{"PluginLoader is outside the property's operation list (it dereferences the master without a guard)"},
 		Trusted:     commonTrusted,
 	})
@@ -428,6 +428,11 @@ func runC16(c *Ctx) {
 	// the rule set a text denotes is every rule written in it: the listener hands each node it takes off its
 	// stack on to the parent or the container on every way to the end of the handler (C10-K6) -- a rule
 	// "with nothing to do" left out is missing from the queries and leaves the rule it replaces running
+	// what an instance executes is looked up in the container its builder holds now: the engine object keeps
+	// no compiled rules from one call to the next (C07-U7) -- a selection remembered per builder pointer
+	// outlives every update, the builder of an instance being the same object for the life of the pool
+	c.ruleEngineKeepsNoRules("Q14-engine-keeps-no-rules-between-calls")
+	c.Min("Q14-engine-keeps-no-rules-between-calls", 1)
 	c.ruleListenerAttach("Q13-every-rule-of-the-text-installed")
 	c.Min("Q13-every-rule-of-the-text-installed", 6)
 }
